@@ -37,7 +37,8 @@ Definition on_eqb (a b : option N) : bool :=
 Inductive rcall :=
 | RConst (which : N)                    (* 0 FALSE, 1 TRUE, 2 sha256, 3 hash256, 4 ripemd160, 5 hash160 *)
 | RPkK (schnorr unc : bool)
-| RPkH (schnorr unc : bool)             (* pk_h(None): unc = false *)
+| RPkH (schnorr unc : bool)
+| RPkHNone (schnorr : bool)              (* pk_h(None) *)
 | RAfter (t : N) | ROlder (t : N)
 | RMulti (k : N) (uncs : list bool)     (* multi and sortedmulti *)
 | RMultiA (k n : N)                     (* multi_a and sortedmulti_a *)
@@ -55,6 +56,7 @@ Definition run_rcall (r : rcall) : xout :=
   | RConst _ => XOk ext_hash20
   | RPkK s u => XOk (ext_pk_k fx s u)
   | RPkH s u => XOk (ext_pk_h fx s u)
+  | RPkHNone s => XOk (ext_pk_h_none fx s)
   | RAfter t => XOk (ext_after t)
   | ROlder t => XOk (ext_older t)
   | RMulti k uncs => checked (ext_multi k uncs)
